@@ -61,6 +61,10 @@ func CSSRule(selector string, style Style) (StyleSheet, error) {
 		// Inside an unquoted url( token, quotes do not delimit CSS strings.
 		return StyleSheet{}, fmt.Errorf("selector %q contains \"url(\", which is disallowed outside of CSS strings", selector)
 	}
+	if strings.Contains(selectorWithoutStrings, "-->") {
+		// At the top level of a style sheet, a "-->" token is dropped by the CSS parser.
+		return StyleSheet{}, fmt.Errorf("selector %q contains \"-->\", which is disallowed outside of CSS strings", selector)
+	}
 	if !hasBalancedBrackets(selectorWithoutStrings) {
 		return StyleSheet{}, fmt.Errorf("selector %q contains unbalanced () or [] brackets", selector)
 	}
